@@ -15,6 +15,18 @@ def Kw.text : Kw → String
   | .oneway => "oneway" | .options => "options" | .struct => "struct" | .service => "service"
   | .subservice => "subservice"
 
+/-- the entry of keywords.go for the keyword: text=TOKEN -/
+def Kw.entry : Kw → String
+  | .any => "any=ANY" | .enum => "enum=ENUM" | .import_ => "import=IMPORT" | .message => "message=MESSAGE"
+  | .oneway => "oneway=ONEWAY" | .options => "options=OPTIONS" | .struct => "struct=STRUCT"
+  | .service => "service=SERVICE" | .subservice => "subservice=SUBSERVICE"
+
+/-- the production of grammar.y that makes the keyword usable as a name -/
+def Kw.nameRule : Kw → String
+  | .any => "keyword -> ANY" | .enum => "keyword -> ENUM" | .import_ => "keyword -> IMPORT"
+  | .message => "keyword -> MESSAGE" | .oneway => "keyword -> ONEWAY" | .options => "keyword -> OPTIONS"
+  | .struct => "keyword -> STRUCT" | .service => "keyword -> SERVICE" | .subservice => "keyword -> SUBSERVICE"
+
 def Kw.all : List Kw := [.any, .enum, .import_, .message, .oneway, .options, .struct, .service, .subservice]
 
 /-- the `keyword` nonterminal: keywords usable as field / method / enum value names -/
